@@ -130,6 +130,13 @@ where
             (p, a) if 0.3 < p && p < 3. && f64::abs(a - PI / 2.) < 0.5 => 2,
             _ => 3,
         };
+        // The copies within a cell are up to one lattice vector apart in each direction, so when the
+        // cell is small compared to the shape more distant images can still overlap. Lattice lines
+        // are spaced by area / length and shapes further apart than twice the enclosing radius
+        // cannot overlap, which gives the number of shells that have to be searched.
+        let spacing = self.cell.area() / f64::max(self.cell.a(), self.cell.b());
+        let required_range = (2. * self.shape.enclosing_radius() / spacing).ceil() as i64;
+        let periodic_range = i64::max(periodic_range, required_range);
         // Compare within the current cell
         for (index, shape1) in self
             .cartesian_positions()
